@@ -41,7 +41,7 @@ CHECKS = {
                 text="Per design of D the reported trial count equals an independent implementation of the documented arithmetic, and every strategy (incl. SMGen when it does not refuse) returns exactly that many entries per user factor. The counting helper __trials_required_for_crossing is proved (partial correctness) to return the smallest trial count containing `crossing_size` applicable trials; applies_to_trial is proved to be the documented start/stride progression.",
                 note=SYS_NOTE + " Termination of the counting loop is not proved.", ref="4.3 C16"),
     "C17": dict(cat="exploration", tech="sample_mismatch_experiment on every candidate sequence of each design vs three-valued reference predicate",
-                text="Bounded exploration: for each design of D every candidate sequence (whole space up to the stated limit) is checked by the real function; definitely valid must give {}, definitely invalid must not.",
+                text="Bounded exploration: for each design of D every candidate sequence (whole space up to the stated limit) is checked by the real function; definitely valid must give {}, definitely invalid must not; single-trial perturbations of valid sequences (any factor, any level) add wrong derived labels and broken sustained groups.",
                 note=SYS_NOTE + " Candidates carry correct derived levels; designs whose crossing is unsatisfiable by construction are not judged.", ref="4.3 C17"),
     "C18": dict(cat="exploration", tech="histories: families of 2-3 blocks sharing factor/constraint objects built in every order vs fresh builds (solution sets, mismatch verdicts)",
                 text="Bounded exploration over construction orders: each block built from shared objects must equal its fresh build in trial count, exhausted IterateSATGen set and sample_mismatch_experiment verdicts.",
@@ -63,12 +63,12 @@ CHECKS = {
                 note="Constraints naming a weighted level are excluded from the twin comparison. Known finding D19 (known_findings.json): copies of a weighted factor that is in some but not every crossing are not distinct solutions.", ref="4.3 C23"),
     "C24": dict(cat="exploration", tech="relational: documented constructor equivalences, both sides built fresh, T and exhausted IterateSATGen sets compared",
                 text="MultiCrossBlock vs Merge of CrossBlocks (mode x alignment grid), Repeat vs Merge REPEAT, Repeat(block, []) / Merge([block]) vs block, CrossBlock vs single-crossing MultiCrossBlock WEIGHT; both rejected or both accepted with equal sets.",
-                note="Bounded design space.", ref="4.3 C24"),
+                note="Bounded design space; a few equivalences are re-evaluated in a process that built other combinators first.", ref="4.3 C24 / 11.6"),
     "C29": dict(cat="other", tech="SMGen on every design of D x seeds: documented refusal or valid output; constraint classes enumerated by reflection",
                 text="Every design of D is given to SMGen with several seeds in killable workers: either the unsupported-feature error is raised or every returned sequence is valid; all concrete constraint classes found by reflection are exercised.",
                 note="Timer interleavings of the search are not explored (schedules quantifier not covered).", ref="4.3 C29"),
     "C25": dict(cat="other", tech="Nest designs: compiled-formula model sets (SAT) and both samplers vs reference reading; associativity by set equality",
-                text="Curated Nest designs (outer/inner 2-3 levels, inner / own constraints, uncrossed outer factor, nested Nest): trial count, per-group constancy of outer crossed factors, outer crossing over groups and inner crossing/constraints within groups are all part of the reference predicate the model sets are compared with; Nest(Nest(a,b),c) and Nest(a,Nest(b,c)) must have equal solution sets.",
+                text="Curated Nest designs (outer/inner 2-3 levels, inner / own constraints, uncrossed outer factor, nested Nest): trial count, per-group constancy of outer crossed factors, outer crossing over groups and inner crossing/constraints within groups are all part of the reference predicate the model sets are compared with; Nest(Nest(a,b),c) and Nest(a,Nest(b,c)) must have equal solution sets; one outer block object nested repeatedly must give the same Nests as freshly built blocks.",
                 note=SYS_NOTE + " Constraints on the OUTER block other than Exclude are outside the reference reading.", ref="4.3 C25"),
     "C26": dict(cat="other", tech="wp proof of map_block_trial_ranges (window enumeration for all inputs) + composed designs: model sets and samplers vs reference reading with per-repetition / global scoping",
                 text="The window mechanism is proved for all inputs (each window is [s0+j(L-p), min(s0+j(L-p)+L, T)), all non-preamble trials covered, loop terminates). Over the composed designs of D (each constraint class on the inner block and on the combinator, partial last repetitions, preambles) the compiled formula's model set and both samplers equal the documented sets.",
@@ -79,9 +79,9 @@ CHECKS = {
     "C08": dict(cat="other", tech="raises-nothing contract: wp safety obligations (proved) + every design of D run with each strategy",
                 text="Safety obligations (index in bounds, divisor non-zero, undeclared raise unreachable) of the window/unranking functions are proved by pyvc.wp for all inputs; every design of D that the constructors accept is synthesized with IterateSATGen and RandomGen (thorough: CMSGen, UniGen) and must not raise.",
                 note=SYS_NOTE, ref="4.3 C08"),
-    "C10": dict(cat="other", tech="contracts on the real encoders; concolic execution + z3 per shape (ids/assignments unbounded), Lemma DE; int_to_binary proved by pyvc.wp; native SAT replay",
-                text="Per (relation, n, k) shape the real encoder is executed with symbolic variable ids and z3 proves, for all ids and all 2^n assignments at once, that the asserted clauses hold iff the count relation holds, against the callee contracts of pop_count/ripple_carry, and that every auxiliary variable is defined exactly once (unique extension). Bounded only in n and k (quick n<=9, thorough n<=16,k<=40); int_to_binary is proved for all k by pyvc.wp; dispatch, request round-trip, ordered pairs of requests over one variable list in one formula, and spot checks on large lists (n around every power of two up to 1024, fully specified inputs) are bounded evaluation on the real code.",
-                note="Bounded in (n,k); Lemma DE is a paper lemma; z3/cvc5 and pycryptosat trusted; math.log evaluated concretely per shape.", ref="4.1 C10"),
+    "C10": dict(cat="other", tech="pyvc.wp proofs on the real source for EVERY n and k (assert_k_of_n, _inequality_assertion, _make_same_length, int_to_binary; pop_count and the two's complement helper by contract) + concolic execution with z3 per shape (ids/assignments unbounded, unique extension by Lemma DE) + native SAT spot checks",
+                text="For all n and k pyvc.wp proves on the real source that, under the definitional clauses (which enter through callee contracts), the asserted unit clauses hold iff the count stands in the relation to k — for exactly, fewer than and more than; induction lemmas on binary representations are proved on every run. Per (relation, n, k) shape the real encoder is executed with symbolic variable ids and z3 proves, for all ids and all 2^n assignments at once, that the asserted clauses hold iff the count relation holds, against the callee contracts of pop_count/ripple_carry, and that every auxiliary variable is defined exactly once (unique extension). Bounded only in n and k (quick n<=9, thorough n<=16,k<=40); int_to_binary is proved for all k by pyvc.wp; dispatch, request round-trip, ordered pairs of requests over one variable list in one formula, and spot checks on large lists (n around every power of two up to 1024, fully specified inputs) are bounded evaluation on the real code.",
+                note="The for-all-n proofs assume pop_count's and _convert_to_negative_twos_complement's contracts (checked per shape and on large n); existence and uniqueness of the extension (Lemma DE side condition) is per shape (n, k bounded); Lemma DE is a paper lemma; z3/cvc5 and pycryptosat trusted; math.log evaluated concretely per shape.", ref="4.1 C10 / 11.6"),
     "C13": dict(cat="other", tech="pyvc.wp proofs (mixed-radix / base-n / falling-factorial unranking: rank equation, ranges, termination) + exhaustive bounded bijection checks against itertools",
                 text="extract_components, compute_jth_combination and compute_jth_inversion_sequence are proved for all inputs (digits in range, rank(result) + (j div N) N == j, loops terminate, no division by zero); construct_permutation is proved to stay in bounds and to return pairwise distinct indices below orig_n (a permutation prefix), n_choose_m_given_m_factorial to compute the falling factorial and its floor quotient; the search-based functions (combinations without replacement, permutation prefixes, permutations with copies and their prefixes, counting functions, shared memo) are enumerated completely for every parameter tuple in a stated bound.",
                 note="Bijection for the three proved functions follows from the rank equation by finite pigeonhole (paper). The other eight functions are bounded (counters<=3, total<=7/8, n<=5/6).", ref="4.1 C13"),
